@@ -300,6 +300,9 @@ def verify_function(reg, c, budget_paths=MAX_PATHS):
     t0 = time.time()
     func = c.func
     reg.current_props = tuple(c.props)
+    mod = getattr(c, 'module', None)
+    scope = [getattr(mod, 'prop', None)] + sorted(getattr(mod, 'uses', ())) + list(c.props)
+    reg.current_scope = tuple(dict.fromkeys(x for x in scope if x))
     info = frontend.funcinfo_of(func)
     rep.source = '%s:%d' % (info.filename, info.node.lineno)
     rep.sha = info.source_sha
